@@ -129,6 +129,7 @@ pub fn family_row(
     let inv2 = F::from(2u64).invert().unwrap();
     let small = |x: &F| F::from(x.to_bytes()[0] as u64 % 4);
     let v = violate.map(|k| k % comp_count(fam));
+    #[allow(unused_assignments)]
     let mut vals = [zero; 4];
     let mut next = [zero; 4];
     let mut arith_violate = false;
